@@ -6,6 +6,7 @@ from ..ref import wire as W, hashes as H
 from .. import libx, gen
 
 from bitcoin.core import CTransaction, CMutableTransaction, CBlock, CBlockHeader
+from bitcoin.core.script import CScript
 from bitcoin.core.serialize import (SerializationError, SerializationTruncationError, DeserializationExtraDataError,
                                     VarIntSerializer, BytesSerializer)
 
@@ -140,6 +141,23 @@ def check_tx(case):
         if d.serialize() != E:
             raise Violation(what + '/reserialize', 'deserialize(E).serialize() != E')
         evals += 2
+        if mutable:
+            # serialisation of a mutable object follows later field assignments (serialise, edit, serialise again)
+            obj.serialize()
+            m2 = dict(m, locktime=m['locktime'] ^ 1, version=-m['version'] - 1 if m['version'] != -2 ** 31 else 0)
+            obj.nLockTime = m2['locktime']
+            obj.nVersion = m2['version']
+            if m['vin']:
+                h_, n_, s_, q_ = m['vin'][-1]
+                m2['vin'] = list(m['vin'][:-1]) + [(h_, n_, s_ + b'\x51', q_ ^ 1)]
+                obj.vin[-1].scriptSig = CScript(s_ + b'\x51')
+                obj.vin[-1].nSequence = q_ ^ 1
+            E2 = W.enc_tx(m2)
+            if obj.serialize() != E2:
+                raise Violation('mtx/bytes-after-edit', 'CMutableTransaction.serialize() does not reflect fields assigned after an earlier serialize()')
+            if cls.deserialize(E2).serialize() != E2:
+                raise Violation('mtx/reserialize-after-edit', 'round trip of the edited mutable transaction differs')
+            evals += 2
         if not mutable or case.get('faults_mutable'):
             evals += _prefix_ext(cls, E, lambda o: isinstance(o, cls) and _eqmodel(libx.tx_model_of(o), m) and o.serialize() == E,
                                  case, _tx_marks(m, E), what)
